@@ -243,22 +243,35 @@ func ruleDigitsRound(c *Ctx) {
 		c.undecided("dround.shape", fd, "digits.round(prec) expected")
 		return
 	}
-	// statements up to the first `if up {`
+	// statements up to the first top-level `if <bool local> {` (or `if !<bool local>`): the decision
 	var upObj types.Object
 	cut := -1
 	for i, s := range fd.Body.List {
-		if as, ok := s.(*ast.AssignStmt); ok && as.Tok == token.DEFINE && len(as.Lhs) == 1 {
-			if id, ok := as.Lhs[0].(*ast.Ident); ok && id.Name == "up" {
-				upObj = p.Info.Defs[id]
-			}
+		ifs, ok := s.(*ast.IfStmt)
+		if !ok || ifs.Init != nil {
+			continue
 		}
-		if ifs, ok := s.(*ast.IfStmt); ok && upObj != nil && p.objOf(ifs.Cond) == upObj {
-			cut = i
-			break
+		cond := ast.Unparen(ifs.Cond)
+		if ue, ok := cond.(*ast.UnaryExpr); ok && ue.Op == token.NOT {
+			cond = ast.Unparen(ue.X)
 		}
+		id, ok := cond.(*ast.Ident)
+		if !ok {
+			continue
+		}
+		o := p.objOf(id)
+		v, ok := o.(*types.Var)
+		if !ok || v.Parent() == p.Pkg.Types.Scope() {
+			continue
+		}
+		if b, ok := v.Type().Underlying().(*types.Basic); !ok || b.Kind() != types.Bool {
+			continue
+		}
+		upObj, cut = o, i
+		break
 	}
 	if cut < 0 {
-		c.undecided("dround.shape", fd, "decision variable `up` and its use not found")
+		c.undecided("dround.shape", fd, "round-up decision (a boolean local tested by a top-level if) not found")
 		return
 	}
 	type vec struct{ ndig, prec int }
@@ -370,9 +383,42 @@ func ruleCeilFloor(c *Ctx) {
 		wantCond := fmt.Sprintf(t.negCond, negName)
 		c.check(gotCond == wantCond, "incr.dir:"+t.fn, incr, "increments only when the sign points away from the result ("+wantCond+")",
 			fmt.Sprintf("%s must increment the magnitude only for %s values: condition is %s, want %s", t.fn, map[string]string{"Decimal.Ceil": "positive", "Decimal.Floor": "negative"}[t.fn], gotCond, wantCond))
-		body := env.canonStmts(incr.Body.List)
-		// for(;trunc!=0;){sig=sig.add64(1);trunc=0;if(sig[1]>LIM){var rem;sig,rem=div10;if(rem!=0){trunc=1};exp++}}
-		okBody := strings.HasPrefix(body, "for(;(K(0)!=") &&
+		// the loop, directly in the block or inside a helper called from it
+		var loop *ast.ForStmt
+		lenv := env
+		find := func(root ast.Node) *ast.ForStmt {
+			var f *ast.ForStmt
+			ast.Inspect(root, func(n ast.Node) bool {
+				if x, ok := n.(*ast.ForStmt); ok && f == nil {
+					f = x
+				}
+				return f == nil
+			})
+			return f
+		}
+		loop = find(incr.Body)
+		if loop == nil {
+			ast.Inspect(incr.Body, func(n ast.Node) bool {
+				call, ok := n.(*ast.CallExpr)
+				if !ok || loop != nil {
+					return true
+				}
+				if fn := p.callee(call); fn != nil && fn.Pkg() == p.Pkg.Types {
+					if hd := p.FuncObj[fn]; hd != nil && hd.Body != nil && !fn.Exported() {
+						if f := find(hd.Body); f != nil {
+							loop = f
+							lenv = p.newCanonEnv(hd)
+						}
+					}
+				}
+				return true
+			})
+		}
+		body := ""
+		if loop != nil {
+			body = lenv.canonStmt(loop)
+		}
+		okBody := loop != nil && strings.HasPrefix(body, "for(;(K(0)!=") &&
 			strings.Contains(body, "=call(uint128.add64;recv=") && strings.Contains(body, ",K(1));") &&
 			strings.Contains(body, fmt.Sprintf(">K(%d))){", lim)) && strings.Contains(body, "call(uint128.div10;recv=") && strings.HasSuffix(body, "++}}")
 		c.check(okBody, "incr.body:"+t.fn, incr, "while inexact: add one unit, clear sticky, renormalise on overflow with exponent +1",
